@@ -92,6 +92,10 @@ func genCase(t *rapid.T) Case {
 				}
 				if rapid.IntRange(0, 3).Draw(t, fmt.Sprintf("hp%d.%d", i, pi)) > 0 {
 					d["price"] = float64(rapid.IntRange(-4, 8).Draw(t, fmt.Sprintf("price%d.%d", i, pi))) / 2
+					if rapid.IntRange(0, 11).Draw(t, fmt.Sprintf("pricenan%d.%d", i, pi)) == 0 {
+						// not a number (a MessagePack body can carry it): written as a marker, cases are JSON
+						d["price"] = nanMarker
+					}
 				}
 				if rapid.IntRange(0, 3).Draw(t, fmt.Sprintf("hl%d.%d", i, pi)) > 0 {
 					d["label"] = rapid.SampledFrom([]string{"a", "b", "B", "ab", "é"}).Draw(t, fmt.Sprintf("label%d.%d", i, pi))
@@ -356,6 +360,44 @@ func cmpRows(a, b map[string]any, opts []models.SortOption) int {
 	return 0
 }
 
+const nanMarker = "$NaN"
+
+// expandNaN returns the steps with the NaN markers of the sortable price field turned into NaN.
+func expandNaN(steps []gen.Step) ([]gen.Step, int) {
+	n := 0
+	out := make([]gen.Step, len(steps))
+	for i, st := range steps {
+		out[i] = st
+		copied := false
+		for pi, p := range st.Points {
+			if p.Doc["price"] == nanMarker {
+				if !copied {
+					out[i].Points = append([]model.Point(nil), st.Points...)
+					copied = true
+				}
+				d := model.CloneDoc(p.Doc)
+				d["price"] = math.NaN()
+				out[i].Points[pi] = model.Point{Id: p.Id, Doc: d}
+				n++
+			}
+		}
+	}
+	return out, n
+}
+
+// nanKey says whether one of the sort keys of the document is NaN. Where NaN sorts is not specified;
+// rows with such a key are left out of the order checks (the rows around them must still be in order).
+func nanKey(doc map[string]any, opts []models.SortOption) bool {
+	for _, o := range opts {
+		if v, ok := keyOf(doc, o.Property); ok {
+			if f, isF := model.Canon(v).(float64); isF && math.IsNaN(f) {
+				return true
+			}
+		}
+	}
+	return false
+}
+
 func execCase(c Case) (res vt.Result) {
 	rec := vt.R()
 	r, err := run.New(c.H)
@@ -363,7 +405,11 @@ func execCase(c Case) (res vt.Result) {
 		return vt.Result{Err: err}
 	}
 	defer r.Close()
-	for i, st := range c.H.Steps {
+	steps, nans := expandNaN(c.H.Steps)
+	if nans > 0 {
+		rec.Count("documents_with_a_nan_sort_value", int64(nans))
+	}
+	for i, st := range steps {
 		if _, err := r.Apply(st); err != nil {
 			res.Err = fmt.Errorf("step %d (%s): %v", i, st.Kind, err)
 			return res
@@ -449,6 +495,7 @@ func execCase(c Case) (res vt.Result) {
 			}
 		}
 		// (3) sort: a permutation of the unsorted answer ordered by the keys, missing last
+		nanInAnswer := false
 		sorted := base
 		if len(sp.Sort) > 0 {
 			sorted, err = r.S.Search(models.SearchRequest{Query: sp.Query, Select: sp.Select, Sort: sp.Sort})
@@ -459,6 +506,7 @@ func execCase(c Case) (res vt.Result) {
 				return fail("sorting changed the set of rows: %s", got.Diff(drive.RowIds(sorted)))
 			}
 			missingSome := false
+			prev := -1 // the previous row whose sort keys are all numbers, strings or missing
 			for i := range sorted {
 				md := map[string]any(r.M.Docs[sorted[i].Id])
 				for _, o := range sp.Sort {
@@ -466,13 +514,18 @@ func execCase(c Case) (res vt.Result) {
 						missingSome = true
 					}
 				}
-				if i == 0 {
+				if nanKey(md, sp.Sort) {
+					nanInAnswer = true
 					continue
 				}
-				if cmpRows(map[string]any(r.M.Docs[sorted[i-1].Id]), md, sp.Sort) > 0 {
-					return fail("rows %d and %d (%s, %s) are not ordered by the sort keys (missing values last): %s then %s", i-1, i, sorted[i-1].Id, sorted[i].Id,
-						model.Show(projection(r.M.Docs[sorted[i-1].Id], sortProps(sp.Sort))), model.Show(projection(r.M.Docs[sorted[i].Id], sortProps(sp.Sort))))
+				if prev >= 0 && cmpRows(map[string]any(r.M.Docs[sorted[prev].Id]), md, sp.Sort) > 0 {
+					return fail("rows %d and %d (%s, %s) are not ordered by the sort keys (missing values last): %s then %s", prev, i, sorted[prev].Id, sorted[i].Id,
+						model.Show(projection(r.M.Docs[sorted[prev].Id], sortProps(sp.Sort))), model.Show(projection(r.M.Docs[sorted[i].Id], sortProps(sp.Sort))))
 				}
+				prev = i
+			}
+			if nanInAnswer {
+				rec.Count("sorted_answers_with_a_nan_key", 1)
 			}
 			if missingSome && len(sorted) > 1 {
 				nontrivial = true
@@ -499,6 +552,10 @@ func execCase(c Case) (res vt.Result) {
 			}
 			// a different point at this position is only acceptable inside a group of equal keys
 			if len(sp.Sort) > 0 {
+				if nanInAnswer {
+					// where the rows with a NaN key stand is not specified, nor is it between two requests
+					continue
+				}
 				if cmpRows(map[string]any(r.M.Docs[paged[j].Id]), map[string]any(r.M.Docs[ref.Id]), sp.Sort) != 0 {
 					return fail("paged row %d is %s, row %d of the full order is %s with different sort keys", j, paged[j].Id, lo+j, ref.Id)
 				}
